@@ -431,6 +431,15 @@ func c20Exec(raw json.RawMessage) Result {
 			OutputPaths: []string{}, ErrorOutputPaths: []string{}}.Build()
 		must(cfgErr)
 		cfgChild := cfgLogger.With(zap.Int("k", 2))
+		// the same level drives a DEVELOPMENT-mode logger, a sampled one and one narrowed by IncreaseLevel(the level itself)
+		devLogger, devErr := zap.Config{Level: silenced, Development: true, Encoding: "console", EncoderConfig: zap.NewDevelopmentEncoderConfig(),
+			OutputPaths: []string{}, ErrorOutputPaths: []string{}}.Build()
+		must(devErr)
+		sampLogger, sampErr := zap.Config{Level: silenced, Encoding: "json", EncoderConfig: zap.NewProductionEncoderConfig(),
+			Sampling: &zap.SamplingConfig{Initial: 2, Thereafter: 3}, OutputPaths: []string{}, ErrorOutputPaths: []string{}}.Build()
+		must(sampErr)
+		incrBase := zap.New(zapcore.NewCore(zapcore.NewJSONEncoder(zap.NewProductionEncoderConfig()), zapcore.AddSync(io.Discard), zapcore.DebugLevel))
+		incrLogger := incrBase.WithOptions(zap.IncreaseLevel(silenced)).Named("n")
 		deaf := zap.NewAtomicLevelAt(zapcore.Level(op.Init))
 		steps := []map[string]any{}
 		o := ok()
@@ -511,6 +520,13 @@ func c20Exec(raw json.RawMessage) Result {
 			}
 			for l := -1; l <= 5; l++ {
 				want := zapcore.Level(l) >= silenced.Level()
+				for name, lg := range map[string]*zap.Logger{"development": devLogger, "sampled": sampLogger, "increase-level": incrLogger} {
+					// (a sampled logger may decline an enabled entry: only Enabled is compared there)
+					if lg.Core().Enabled(zapcore.Level(l)) != want || (name != "sampled" && (lg.Check(zapcore.Level(l), "m") != nil) != (want || l >= 4 || (l == 3 && name == "development"))) {
+						o = bad("C20:http-logger-stale:"+name, "req %d: the %s logger driven by the level answers Enabled(%d)=%v, Check≠nil=%v after the endpoint set %v",
+							i, name, l, lg.Core().Enabled(zapcore.Level(l)), lg.Check(zapcore.Level(l), "m") != nil, silenced.Level())
+					}
+				}
 				if cfgLogger.Core().Enabled(zapcore.Level(l)) != want || cfgChild.Core().Enabled(zapcore.Level(l)) != want {
 					o = bad("C20:http-logger-stale:config-built", "req %d: the logger built by Config.Build while the level was above fatal answers Enabled(%d)=%v after the endpoint set %v",
 						i, l, cfgLogger.Core().Enabled(zapcore.Level(l)), silenced.Level())
